@@ -154,3 +154,105 @@ Definition mk_part (maj mi : Z) (name : bytes) (whole : bool) (a b c d : Z) : kd
   Build_kdisk (dz maj) (dz mi) name whole (LPart (dz a) (dz b) (dz c) (dz d)).
 Definition mk_sys (name : bytes) (whole : bool) (c extra : list Z) : ksys :=
   Build_ksys name (mk_io c) (map dz extra) whole.
+
+(* ------------------------------------------------ large tables, generated from a compact seed *)
+(* Printing tens of thousands of list elements is what costs time in coqc, so these entry points return
+   the printed file only as (length, checksum) -- the harness rebuilds the bytes with its own printer
+   and must hit both -- and the spec only as "Same" when it equals the model's answer. *)
+Definition cksum (l : bytes) : Z :=
+  fold_left (fun a b => (a * 131 + b + 1) mod 2305843009213693951) l 7.
+Definition jv_file (c : bytes) : jv := JL [JZ (Z.of_nat (length c)); JZ (cksum c)].
+
+(* results without the field names (those are compared on the ordinary cases) *)
+Definition jv_front_c (r : front_res) : jv :=
+  match r with
+  | RNone => jnone
+  | RDict d => JC "Dict" [JL (map (fun kv => JL [jv_text (fst kv); JL (map (fun x => JZ (snd x)) (snd kv))]) d)]
+  | RTuple t => JC "Tuple" [JL (map (fun x => JZ (snd x)) t)]
+  end.
+Definition nt_eqb (a b : ntuple) : bool := all2 (fun x y => beqb (fst x) (fst y) && (snd x =? snd y)) a b.
+Definition front_eqb (a b : front_res) : bool :=
+  match a, b with
+  | RNone, RNone => true
+  | RDict x, RDict y => all2 (fun p q => beqb (fst p) (fst q) && nt_eqb (snd p) (snd q)) x y
+  | RTuple x, RTuple y => nt_eqb x y
+  | _, _ => false
+  end.
+(* the spec's answer: None = no demand; "Same" = equal to the model's answer; else written out *)
+Definition jv_spec_vs (ok : bool) (spec : front_res) (model : outcome front_res) : jv :=
+  if ok then
+    match model with
+    | Val m => if front_eqb m spec then JC "Same" [] else JC "Val" [jv_front_c spec]
+    | _ => JC "Val" [jv_front_c spec]
+    end
+  else jnone.
+Definition xout_outcome {A} (x : xout A) : outcome A := match x with XV o => o | XAssert => OutOfModel end.
+
+Fixpoint pad_of (pads : list (Z * nat)) (k : Z) : nat :=
+  match pads with
+  | [] => O
+  | (k', p) :: r => if k =? k' then p else pad_of r k
+  end.
+(* "<c><k>" followed by [pad] times 'x' *)
+Definition big_name (c : Z) (k : Z) (pad : nat) : bytes := c :: dz k ++ repeat 120 pad.
+Definition idx11 : list Z := [0; 1; 2; 3; 4; 5; 6; 7; 8; 9; 10].
+Definition idx16 : list Z := idx11 ++ [11; 12; 13; 14; 15].
+Definition big_val (wide : bool) (k j : Z) : Z :=
+  if wide then 18446744073709551615 - (k * 32 + j) else 1000 * k + j.
+
+(* device k: "d<k>", minor k, a whole disk when k mod 4 = 0, 20 fields *)
+Fixpoint big_disks_aux (fuel : nat) (k : Z) (wide : bool) (pads : list (Z * nat)) : list kdisk :=
+  match fuel with
+  | O => []
+  | S f =>
+    mk_full 8 k (big_name 100 k (pad_of pads k)) (k mod 4 =? 0) (map (big_val wide k) idx11)
+            (if wide then map (big_val wide k) [11; 12; 13; 14; 15; 16] else [0; 0; 0; 0; 0; 0])
+    :: big_disks_aux f (k + 1) wide pads
+  end.
+Definition big_disks (n : nat) (wide : bool) (pads : list (Z * nat)) : list kdisk := big_disks_aux n 0 wide pads.
+
+Definition run_disk_big (n : nat) (wide : bool) (pads : list (Z * nat)) : jv :=
+  let l := big_disks n wide pads in
+  let c := k_diskstats l in
+  let listing := map (fun d => sysfs_name (d_name d)) (filter d_whole l) in
+  let sb := in_listing listing in
+  let ok := wf_disks l in
+  let mt := disk_io_counters true sb (ProcDiskstats c) in
+  let mf := disk_io_counters false sb (ProcDiskstats c) in
+  JL [ jv_file c; JL (map JB listing);
+       jv_outcome jv_front_c mt; jv_outcome jv_front_c mf;
+       jv_spec_vs ok (spec_disks sb true l) mt; jv_spec_vs ok (spec_disks sb false l) mf ].
+
+Fixpoint big_nics_aux (fuel : nat) (k : Z) (wide : bool) (pads : list (Z * nat)) : list knic :=
+  match fuel with
+  | O => []
+  | S f => mk_nic (big_name 110 k (pad_of pads k)) (map (big_val wide k) idx16) :: big_nics_aux f (k + 1) wide pads
+  end.
+Definition big_nics (n : nat) (wide : bool) (pads : list (Z * nat)) : list knic := big_nics_aux n 0 wide pads.
+
+Definition run_net_big (legacy sp : bool) (n : nat) (wide : bool) (pads : list (Z * nat)) : jv :=
+  let l := big_nics n wide pads in
+  let c := k_netdev sp l in
+  let mt := net_io_counters legacy true c in
+  let mf := net_io_counters legacy false c in
+  JL [ jv_file c;
+       jv_xout jv_front_c mt; jv_xout jv_front_c mf;
+       jv_spec_vs (printable_nics l) (spec_net true l) (xout_outcome mt);
+       jv_spec_vs (printable_nics l) (spec_net false l) (xout_outcome mf) ].
+
+(* a /sys/block with n whole disks "d<k>" (no /proc/diskstats) *)
+Fixpoint big_sys_aux (fuel : nat) (k : Z) : list ksys :=
+  match fuel with
+  | O => []
+  | S f => mk_sys (big_name 100 k O) true (map (big_val false k) idx11) [] :: big_sys_aux f (k + 1)
+  end.
+Definition run_sys_big (n : nat) : jv :=
+  let l := big_sys_aux n 0 in
+  let ents := map (fun e => (y_name e, k_sys_stat e)) l in
+  let sb := in_listing (map y_name l) in
+  let ok := wf_syss l && sys_agrees sb l in
+  let mt := disk_io_counters true sb (SysBlock ents) in
+  let mf := disk_io_counters false sb (SysBlock ents) in
+  JL [ jv_file (concat (map (fun e => fst e ++ 0 :: snd e) ents));
+       jv_outcome jv_front_c mt; jv_outcome jv_front_c mf;
+       jv_spec_vs ok (spec_sys true l) mt; jv_spec_vs ok (spec_sys false l) mf ].
